@@ -166,7 +166,7 @@ type dsSim struct {
 	trace  []string
 	finds  []simFinding
 	// ground truth collected while running
-	handledHeaders map[bitcoin.Hash32]bool // headers the node has handled (from the trusted peer)
+	handledHeaders map[bitcoin.Hash32]bool // headers the node has handled since the peer's last chain change
 	announced      []recEvent              // headers callbacks (handler 0)
 	inSyncChecked  int
 	maxRequested   int
@@ -174,6 +174,7 @@ type dsSim struct {
 	stalled        bool
 	sinceProc      int
 	crashed        bool
+	between        func() // called between scheduling steps (adversary)
 }
 
 // guard runs node code and turns a panic into a finding (in the real node the goroutine, and
@@ -227,6 +228,12 @@ func (s *dsSim) hookLog() {
 			}
 		}
 	}
+}
+
+// chainChanged must be called when the peer switches to another branch: announcements made before
+// the switch say nothing about the new best chain (a revived branch has to be announced again).
+func (s *dsSim) chainChanged() {
+	s.handledHeaders = map[bitcoin.Hash32]bool{}
 }
 
 // connect re-issues what Run does when a connection is established.
@@ -373,11 +380,20 @@ func (s *dsSim) afterStep(what string) {
 }
 
 // pump runs until quiescence: nothing queued in either direction, processor idle.
-func (s *dsSim) pump(maxSteps int) {
+func (s *dsSim) pump(maxSteps int) { s.pumpUntil(maxSteps, nil) }
+
+// pumpUntil pumps until quiescence or until stop() holds at a scheduling point.
+func (s *dsSim) pumpUntil(maxSteps int, stop func() bool) {
 	if s.pol.fairness <= 0 {
 		s.pol.fairness = 8
 	}
 	for it := 0; it < maxSteps && !s.crashed; it++ {
+		if stop != nil && stop() {
+			return
+		}
+		if s.between != nil {
+			s.between()
+		}
 		s.guard("check()", func() { s.e.node.check(s.e.ctx) })
 		s.feed()
 		if s.r.Intn(100) < s.pol.procPct || s.sinceProc >= s.pol.fairness {
